@@ -5,6 +5,7 @@ CONSTANTS
   HasIds = TRUE
   PrebuiltWrapper = TRUE
   PoolLocked = TRUE
+  StaticScratch = FALSE
   MaxRuns = 1
 INVARIANT TypeInv
 INVARIANT RaceFree
